@@ -14,6 +14,10 @@ of the expansion uses, re-read from /repo on every run -> lean/YashModel/Generat
   switchSymbols         yash-syntax/src/parser/lex/modifier.rs  `switch`: (symbol, SwitchAction variant)
   trimSymbols           `trim`: (symbol, TrimSide variant)
   suffixSwitchSymbols / suffixTrimSymbols   the arms of `suffix_modifier` that dispatch to `switch` / `trim`
+  tildeHomeVar, tildeHomeFallback, tildeUnknownPrefix, tildeSlash, tildeCharAttr, tildeDummy
+                        yash-semantics/src/expansion/initial/tilde.rs  `expand_body` / `finish`: the variable `~` reads
+                        (constant resolved in constants.rs, or a literal), the stand-ins, the stripped slash, the
+                        attributes of the result (`AttrChar { … }` literals, fields in any order)
 
 Sets of characters are read from any of the equivalent shapes `matches!(c, 'a' | 'b')`, `c == 'a' || c == 'b'`,
 `['a', 'b'].contains(&c)`, `"ab".contains(c)`; tables from `match` arms `'a' => X::Y,` (with or without a path
@@ -230,7 +234,7 @@ def length_prefix_sets(h, src):
     conds = []
     for m in re.finditer(r"\bif\s+((?:matches!\s*\([^)]*\))|(?:[^{]*?))\s*\{", body[i:]):
         c = m.group(1)
-        if re.search(CHAR, c) and not c.lstrip().startswith("let"):
+        if (re.search(CHAR, c) or re.search(r'"#*\s*\.\s*contains\s*\(', c)) and not c.lstrip().startswith("let"):
             conds.append(c)
     # the last comparison `c == '}'` is a `return Ok(c == '}')`, not an `if`
     if len(conds) != 2:
@@ -268,6 +272,98 @@ def suffix_arms(h, src):
     return sw, tr
 
 
+def const_str(h, name, what):
+    """value of `const NAME: &str = "…";` in yash-env/src/variable/constants.rs"""
+    cs = strip_comments(h.read("yash-env/src/variable/constants.rs"))
+    m = re.search(r"\bconst\s+" + name + r"\s*:\s*&\s*(?:'static\s+)?str\s*=\s*([^;]+);", cs)
+    if not m:
+        h.fail(f"expansion: {what}: anchor not found: const {name} in yash-env/src/variable/constants.rs")
+    return rust_string(h, m.group(1).strip(), name)
+
+
+STR = r'(?:r#*)?"(?:[^"\\]|\\.)*"#*'
+
+
+def attr_char_literals(h, body, what):
+    """every `AttrChar { value: …, origin: Origin::X, is_quoted: b, is_quoting: b }` of body (fields in any order,
+    `value` possibly in shorthand form) as dicts"""
+    out = []
+    for m in re.finditer(r"\bAttrChar\s*\{([^{}]*)\}", body):
+        fields = {}
+        for part in m.group(1).split(","):
+            part = part.strip()
+            if not part:
+                continue
+            if part.startswith(".."):
+                h.fail(f"expansion: {what}: AttrChar literal with a base expression: {part!r}")
+            if ":" in part and not re.fullmatch(CHAR, part):
+                k, v = part.split(":", 1)
+                fields[k.strip()] = v.strip()
+            elif re.fullmatch(r"\w+", part):
+                fields[part] = part
+            else:
+                h.fail(f"expansion: {what}: AttrChar field of an unknown shape: {part!r}")
+        if set(fields) != {"value", "origin", "is_quoted", "is_quoting"}:
+            h.fail(f"expansion: {what}: AttrChar literal with fields {sorted(fields)}")
+        o = re.fullmatch(r"(?:\w+::)*(Literal|HardExpansion|SoftExpansion)", fields["origin"])
+        if not o:
+            h.fail(f"expansion: {what}: origin of an unknown shape: {fields['origin']!r}")
+        flags = []
+        for k in ("is_quoted", "is_quoting"):
+            if fields[k] not in ("true", "false"):
+                h.fail(f"expansion: {what}: {k} is not a Boolean literal: {fields[k]!r}")
+            flags.append(fields[k] == "true")
+        v = fields["value"]
+        if re.fullmatch(CHAR, v):
+            value = h.rust_char(v[1:-1])
+        elif re.fullmatch(r"\*?\w+", v):
+            value = None  # the character being mapped
+        else:
+            h.fail(f"expansion: {what}: value of an unknown shape: {v!r}")
+        out.append({"value": value, "origin": o.group(1), "quoted": flags[0], "quoting": flags[1]})
+    return out
+
+
+def tilde_constants(h):
+    """initial/tilde.rs: the variable `~` reads, what stands in when it has no scalar value, the prefix an unknown login
+    name keeps, the slash `finish` strips, the attributes of the resulting characters and the dummy quote"""
+    src = strip_comments(h.read("yash-semantics/src/expansion/initial/tilde.rs"))
+    src = src.split("#[cfg(test)]")[0]
+    body = fn_body(h, src, "expand_body", "tilde.rs expand_body")
+    m = re.search(r"\bget_scalar\s*\(\s*(" + STR + r"|(?:\w+::)*[A-Z][A-Z0-9_]*)\s*\)\s*\.\s*unwrap_or(?:_else\s*\(\s*\|\s*\|)?\s*\(?\s*("
+                  + STR + r")\s*\)", body)
+    if not m:
+        h.fail("expansion: tilde.rs expand_body: `get_scalar(<HOME>).unwrap_or(\"…\")` not found")
+    var = m.group(1)
+    home = rust_string(h, var, "tilde HOME") if var.startswith('"') or var.startswith("r") \
+        else const_str(h, var.split("::")[-1], "tilde HOME")
+    fallback = rust_string(h, m.group(2), "tilde fallback")
+    if not re.search(r"\bname\s*\.\s*is_empty\s*\(\s*\)", body):
+        h.fail("expansion: tilde.rs expand_body: the test `name.is_empty()` not found")
+    if not re.search(r"\bgetpwnam_dir\s*\(", body):
+        h.fail("expansion: tilde.rs expand_body: no call of getpwnam_dir")
+    m = re.search(r'\bformat!\s*\(\s*"((?:[^"\\{]|\\.)*)\{(name)?\}"\s*(?:,\s*name\s*)?\)', body)
+    if not m:
+        h.fail("expansion: tilde.rs expand_body: `format!(\"<prefix>{name}\")` for an unknown name not found")
+    unknown = rust_string(h, '"' + m.group(1) + '"', "tilde unknown-name prefix")
+    fin = fn_body(h, src, "finish", "tilde.rs finish")
+    m = re.search(r"\bfollowed_by_slash\b[^{;]*?\bstrip_suffix\s*\(\s*(" + CHAR + r"|" + STR + r")\s*\)", fin)
+    if not m:
+        h.fail("expansion: tilde.rs finish: `followed_by_slash && … strip_suffix('/')` not found")
+    lit = m.group(1)
+    slash = h.rust_char(lit[1:-1]) if lit.startswith("'") else rust_string(h, lit, "tilde slash")
+    if len(slash) != 1:
+        h.fail(f"expansion: tilde.rs finish: the stripped suffix is not one character: {slash!r}")
+    if not re.search(r"\.\s*is_empty\s*\(\s*\)", fin):
+        h.fail("expansion: tilde.rs finish: the emptiness test before the dummy quote not found")
+    lits = attr_char_literals(h, fin, "tilde.rs finish")
+    mapped = [a for a in lits if a["value"] is None]
+    dummy = [a for a in lits if a["value"] is not None]
+    if len(mapped) != 1 or len(dummy) != 1:
+        h.fail(f"expansion: tilde.rs finish: expected one mapped and one literal AttrChar, found {len(mapped)} and {len(dummy)}")
+    return home, fallback, unknown, slash, mapped[0], dummy[0]
+
+
 def expansion_tables(h):
     L = h.lean_char
 
@@ -286,8 +382,13 @@ def expansion_tables(h):
     switch = char_table(h, fn_body(h, mod, "switch", "modifier.rs switch"), "symbol", "SwitchAction", "modifier.rs switch")
     trim = char_table(h, fn_body(h, mod, "trim", "modifier.rs trim"), "symbol", "TrimSide", "modifier.rs trim")
     ssw, str_ = suffix_arms(h, mod)
+    t_home, t_fallback, t_unknown, t_slash, t_char, t_dummy = tilde_constants(h)
     if sorted(ssw) != sorted(c for c, _ in switch) or sorted(str_) != sorted(c for c, _ in trim):
         h.fail("expansion: suffix_modifier dispatches characters that switch / trim do not handle (or the reverse)")
+    # sets and symbol tables are emitted sorted by code point: the order of match arms / of the alternatives of a
+    # character test carries no meaning (optionShortNames keeps the enum order, which is the order of `$-`)
+    special, switch, trim = sorted(special), sorted(switch), sorted(trim)
+    plain, amb, ssw, str_ = sorted(plain), sorted(amb), sorted(ssw), sorted(str_)
 
     def pairs(rows):
         return "[" + ", ".join(f"({L(c)}, {h.lean_str(v)})" for c, v in rows) + "]"
@@ -314,7 +415,21 @@ def expansion_tables(h):
         "/-- `suffix_modifier`: the symbols dispatched to `switch` -/\n"
         f"def suffixSwitchSymbols : List Char := {chars(ssw)}\n\n"
         "/-- `suffix_modifier`: the symbols dispatched to `trim` -/\n"
-        f"def suffixTrimSymbols : List Char := {chars(str_)}\n"
+        f"def suffixTrimSymbols : List Char := {chars(str_)}\n\n"
+        f"/-- `tilde::expand_body`: the variable `~` stands for: {t_home!r} -/\n"
+        f"def tildeHomeVar : String := {h.lean_str(t_home)}\n\n"
+        f"/-- … what stands in when that variable has no scalar value: {t_fallback!r} -/\n"
+        f"def tildeHomeFallback : List Char := {chars(t_fallback)}\n\n"
+        f"/-- … the prefix kept in front of a login name `getpwnam_dir` does not know: {t_unknown!r} -/\n"
+        f"def tildeUnknownPrefix : List Char := {chars(t_unknown)}\n\n"
+        f"/-- `tilde::finish`: the suffix stripped when a slash follows: {t_slash!r} -/\n"
+        f"def tildeSlash : Char := {L(t_slash)}\n\n"
+        "/-- … origin / is_quoted / is_quoting of the characters of the result -/\n"
+        f"def tildeCharAttr : String × Bool × Bool := ({h.lean_str(t_char['origin'])}, "
+        f"{'true' if t_char['quoted'] else 'false'}, {'true' if t_char['quoting'] else 'false'})\n\n"
+        f"/-- … the dummy character an empty result is replaced by: value {t_dummy['value']!r}, origin, is_quoted, is_quoting -/\n"
+        f"def tildeDummy : Char × String × Bool × Bool := ({L(t_dummy['value'])}, {h.lean_str(t_dummy['origin'])}, "
+        f"{'true' if t_dummy['quoted'] else 'false'}, {'true' if t_dummy['quoting'] else 'false'})\n"
     )
     h.write("ExpansionTables", body)
 
